@@ -348,6 +348,36 @@ class R:
                                               'not a balanced expression')
                 except Exception as e:
                     self.fail('C06', f'pars:{tag}', f'pars() raised {e!r}')
+            if a.__class__.__name__ in ('FunctionDef', 'AsyncFunctionDef') and toks:
+                args = a.args
+                has = any([args.posonlyargs, args.args, args.kwonlyargs, args.vararg, args.kwarg])
+                if has:
+                    # delimiters by tokenize: first '(' after the name (skipping a type parameter list) and its match
+                    tl = [t for t in toks if (t.start[0], t.start[1]) >= (a.lineno, a.col_offset)]
+                    depth = 0
+                    lpar = rpar = None
+                    sq = 0
+                    for t in tl:
+                        if t.string == '[' and lpar is None:
+                            sq += 1
+                        elif t.string == ']' and lpar is None:
+                            sq -= 1
+                        elif t.string == '(' and sq == 0:
+                            depth += 1
+                            if depth == 1 and lpar is None:
+                                lpar = t
+                        elif t.string == ')' and sq == 0 and lpar is not None:
+                            depth -= 1
+                            if depth == 0:
+                                rpar = t
+                                break
+                    al = f.args.loc
+                    if lpar is not None and rpar is not None and al is not None:
+                        exp = (lpar.end[0] - 1, lpar.end[1], rpar.start[0] - 1, rpar.start[1])
+                        inner_ok = (exp[0], exp[1]) <= (al[0], al[1]) and (al[2], al[3]) <= (exp[2], exp[3])
+                        if not inner_ok:
+                            self.fail('C06', f'loc.arguments:{tag}', f'arguments.loc {tuple(al)} does not lie between the '
+                                      f'parentheses of the def {exp}')
             self.distinct.add(('loc', self.name, id(f)))
         # siblings ordered and disjoint
         child_map = {}
